@@ -136,6 +136,11 @@ MaxDiffQ(xs, ys, i) ==
             ELSE IF xs[i] = ys[i] THEN R0 ELSE R1, MaxDiffQ(xs, ys, i + 1))
 NearlySame(xs, ys, rel) == Len(xs) = Len(ys) /\ RLeq(MaxDiffQ(xs, ys, 1), RMul(rel, MaxAbsQ(ys, 1)))
 
+\* starting-point stratum of a vector iterate: all coordinates exactly (+-)0, exactly one, or none / several
+ZeroQ(q) == FinQ(q) /\ q[2] = 0 /\ q[3] = 0
+NZeros(xs) == Cardinality({i \in 1..Len(xs) : ZeroQ(xs[i])})
+StartStratum(xs) == IF NZeros(xs) = Len(xs) THEN "origin" ELSE IF NZeros(xs) = 1 THEN "onezero" ELSE "generic"
+
 ---------------------------------------------------------------------------
 \* begin
 HBegin(s, e) ==
@@ -164,6 +169,10 @@ HBegin(s, e) ==
       cov |-> <<"strategy|" \o e.strat \o (IF fresh THEN "|fresh" ELSE "|shared"), "mode|" \o e.mode, "shape|" \o e.shape,
                 "fam|" \o e.fam, "max_iter|" \o ToString(e.max_iter), "ftol|" \o RToStr(RFromDouble(e.ftol)),
                 "ptol|" \o RToStr(RFromDouble(e.ptol)), "w|" \o RToStr(RFromDouble(e.w))>>
+              \o (IF e.start \in {"origin", "onezero"}
+                  THEN <<"start|" \o e.start \o "|" \o e.mode \o "|numdiff=" \o ToString(e.numdiff) \o
+                         (IF e.shape = "sparse" THEN "|sparse" ELSE "|dense")>>
+                  ELSE <<"start|" \o e.start>>)
               \o (IF ~fresh THEN <<IF dirty THEN "reset|arrived-dirty|" \o e.strat ELSE "reset|arrived-initial|" \o e.strat>> ELSE <<>>),
       strats |-> (e.sid :> s0) @@ s.strats, run |-> run]
 
@@ -173,7 +182,11 @@ HCb(s, e) ==
       c == X(e.cost)
   IN IF ~r.active \/ r.id /= e.run THEN [bad |-> Tool("cb", "no such run"), cov |-> <<>>, strats |-> s.strats, run |-> r]
      ELSE IF r.ncb = 0
-     THEN [bad |-> IF r.nit > 0 THEN Fail("C09.final", "initial-callback-missing", "0", "1") ELSE <<>>,
+     THEN [bad |-> (IF r.nit > 0 THEN Fail("C09.final", "initial-callback-missing", "0", "1") ELSE <<>>)
+                   \* the declared starting-point stratum is re-derived from the initial iterate (linear families: every
+                   \* coefficient is a vector coordinate)
+                   \o (IF r.b.known = "lin" /\ r.b.start \in {"origin", "onezero", "generic"} /\ StartStratum(e.x) /= r.b.start
+                       THEN Tool("start", "declared " \o r.b.start \o ", initial iterate is " \o StartStratum(e.x)) ELSE <<>>),
            cov |-> <<"cb|initial">>, strats |-> s.strats,
            run |-> [r EXCEPT !.ncb = 1, !.lastX = e.x, !.lastCost = c]]
      ELSE [bad |-> IF r.pend /= <<>> THEN Fail("C09.final", "two-callbacks-in-one-iteration", "2", "1") ELSE <<>>,
@@ -311,7 +324,8 @@ HEnd(s, e) ==
                  THEN <<"minimiser|" \o r.b.known \o "|" \o r.b.shape \o "|" \o r.b.mode,
                         \* residual weight x kind of Jacobian the solver saw (sparse only through a jacobian member)
                         "minimiser-w|" \o RToStr(RFromDouble(r.b.w)) \o
-                          (IF r.b.shape = "sparse" /\ r.b.mode \in {"ana", "def"} THEN "|sparseJ" ELSE "|denseJ")>>
+                          (IF r.b.shape = "sparse" /\ r.b.numdiff = 0 THEN "|sparseJ" ELSE "|denseJ"),
+                        "minimiser-start|" \o r.b.start \o "|numdiff=" \o ToString(r.b.numdiff)>>
                  ELSE <<>>)
              \o (IF r.nit = 0 THEN <<"run|no-iterations">> ELSE <<>>)
              \o (IF r.nacc < r.nit THEN <<"run|with-rejections">> ELSE <<>>)
